@@ -376,7 +376,7 @@ func (i *interpreter) goStmt(fr *frame, instr *ssa.Go, fn value, args []value) {
 	if i.ps != nil {
 		i.ps.goStmts++
 	}
-	if i.w.e.SeqGo {
+	if i.w.e.SeqGo || syncGo(fr.fn) {
 		call(i, nil, instr.Pos(), fn, args)
 		return
 	}
@@ -710,4 +710,19 @@ func engineSite() string {
 		}
 	}
 	return ""
+}
+
+// syncGo reports whether go statements inside fn are run synchronously at
+// the spawn point: producer goroutines of lexers and errgroup workers.
+func syncGo(fn *ssa.Function) bool {
+	for f := fn; f != nil; f = f.Parent() {
+		if f.Pkg != nil {
+			switch f.Pkg.Pkg.Path() {
+			case "golang.org/x/sync/errgroup",
+				"github.com/crossplane/crossplane-runtime/pkg/fieldpath":
+				return true
+			}
+		}
+	}
+	return false
 }
